@@ -229,6 +229,12 @@ def parse_color_to_rgb(
                 # HSL without alpha
                 return hsl_to_rgb(s)
 
+        # Any other functional notation (oklch(), lab(), color(), hwb(), color-mix(), ...)
+        # is not supported: its numbers are not RGB components
+        func = re.match(r"([a-z][a-z0-9-]*)\(", s_lower)
+        if func and func.group(1) not in ("rgb", "rgba"):
+            raise ValueError(f"Unsupported color function '{func.group(1)}()' in '{s}'")
+
         # RGB/RGBA functional notation and informal formats
         if (
             s_lower.startswith("rgb(")
